@@ -481,6 +481,16 @@ Theorem C13_corruption_rejected_seek :
 Proof. exact seek_accepts_consistent. Qed.
 Print Assumptions C13_corruption_rejected_seek.
 
+(* known finding seek-206-digest-unverified: a 206 whose well-formed digest header names other
+   content is accepted (witness; the full "digest header contradicts -> fail" is false for Seek) *)
+Theorem C13_corruption_rejected_seek_digest_refuted :
+  let '(k1, rq, out) := rsc_step (fun _ => mkBm 0 false) w_seek_srv (rsc_open (b "hello world") 11) (SSeek 6 SeekStart) in
+  out = SPos 6 /\ rq = [(6, 10)] /\ k_rc k1 = b "world" /\
+  r_dig (w_seek_srv 0%nat 6 10) = Some w_seek_other /\ valid_digest w_seek_other = true /\
+  str_eqb w_seek_other w_seek_digest = false.
+Proof. exact seek_206_digest_unverified_refuted. Qed.
+Print Assumptions C13_corruption_rejected_seek_digest_refuted.
+
 (* the readers C13_seek speaks of are the ones the client hands out: in every capability
    profile (also ranges without Content-Length on the GET, where the descriptor comes from a
    HEAD) blob FetchReference and Fetch open the reader with the blob's true size *)
